@@ -7268,6 +7268,9 @@ pub struct RtpReceiver {
     track_ready_event_tx: Mutex<Option<mpsc::UnboundedSender<PeerConnectionEvent>>>,
     track_ready_transceiver: Mutex<Option<Weak<RtpTransceiver>>>,
     track_event_sent: AtomicBool,
+    /// Serializes `set_transport`: it is entered both by `set_remote_description`
+    /// (per-section transports) and by the connection task.
+    set_transport_serial: Mutex<()>,
     /// Lock-free clock-rate cache keyed by payload type. The mapping is static
     /// after SDP negotiation, so the per-packet receive path can skip the
     /// `payload_map` RwLock + `params` Mutex on every RTP packet.
@@ -7385,6 +7388,7 @@ impl RtpReceiverBuilder {
             track_ready_event_tx: Mutex::new(None),
             track_ready_transceiver: Mutex::new(None),
             track_event_sent: AtomicBool::new(false),
+            set_transport_serial: Mutex::new(()),
             clock_rate_cache_pt: AtomicU8::new(u8::MAX),
             clock_rate_cache: AtomicU32::new(0),
             depacketizer_factory: self.depacketizer_factory.unwrap_or_else(|| {
@@ -7444,6 +7448,7 @@ impl RtpReceiver {
             track_ready_event_tx: Mutex::new(None),
             track_ready_transceiver: Mutex::new(None),
             track_event_sent: AtomicBool::new(false),
+            set_transport_serial: Mutex::new(()),
             clock_rate_cache_pt: AtomicU8::new(u8::MAX),
             clock_rate_cache: AtomicU32::new(0),
             depacketizer_factory: Arc::new(crate::media::depacketizer::DefaultDepacketizerFactory),
@@ -7688,6 +7693,12 @@ impl RtpReceiver {
         event_tx: Option<mpsc::UnboundedSender<PeerConnectionEvent>>,
         transceiver: Option<Weak<RtpTransceiver>>,
     ) {
+        // Two callers can arrive at the same time (the connection task and
+        // set_remote_description attaching a per-section transport). Unserialized, both
+        // pass the same-transport check below, both register a channel and start a
+        // receive loop, and the loop that survives may not be the one whose channel the
+        // transport routes to: every later packet is dropped as "no listener".
+        let _serial = self.set_transport_serial.lock();
         {
             let current_transport = self.transport.lock();
             if let Some(existing) = current_transport.as_ref() {
